@@ -614,6 +614,28 @@ theorem serStrAt_leaf (hext : ExtOK ext) {n : Node} (hnok : NodeOK ac S n)
 
 end
 
+theorem nullVariantBranch_some {S : Schema} {vs : List Nat} {variant : String} {d : Nat}
+    (h : nullVariantBranch S vs variant = some d) :
+    variant = "Null" ∧ ∃ k, vs[d]? = some k ∧ S[k]? = some .null := by
+  unfold nullVariantBranch at h
+  split at h
+  · rename_i hv
+    refine ⟨hv, ?_⟩
+    split at h
+    · rename_i d' _
+      split at h
+      · rename_i hb
+        have key : ∀ c : Bool, (if c = true then none else some d') = some d → d' = d := by
+          intro c; cases c <;> simp
+        have hdd := key _ h
+        subst hdd
+        cases hk : vs[d']? with
+        | none => simp [hk] at hb
+        | some k => exact ⟨k, rfl, by simpa [hk] using hb⟩
+      · cases h
+    · cases h
+  · cases h
+
 section
 variable {ac : Bool} {ext : Ext} {S : Schema} (hS : SchemaOK ac S) {node : Node}
   (hn : NodeOK ac S node) (s : SerState) (h : s.budget = none)
@@ -651,19 +673,53 @@ theorem serUnitVariant_sound (name : String) (idx : Nat) (variant : String)
     ∃ v bytes, serUnitVariant ext S node variant s = (.ok (), { s with out := s.out ++ bytes }) ∧
       Dec S node bytes v ∧
       denotesAtLeaf (denExtOf ext) S node (.unitVariant name idx variant) v = true := by
-  unfold serUnitVariant at hok ⊢
-  refine viaUnion_leaf hS hn _ _ _ s h ?_ hok
-  intro n s h hu hnok hok
-  cases n <;> simp only [] at hok ⊢
-  case null =>
-    have hv := ite_fail_ok hok
-    rw [if_pos hv]
-    exact ⟨.null, [], by simp [pure], Dec.of_encode (by simp [encode]), by simp [denotesLeaf, hv]⟩
-  case string => exact serStrAt_text s h hnok _ variant rfl hlen (Or.inl rfl) hok
-  case bytes => exact serStrAt_text s h hnok _ variant rfl hlen (Or.inr (Or.inl rfl)) hok
-  case enum nm syms =>
-    exact serStrAt_text s h hnok _ variant rfl hlen (Or.inr (Or.inr ⟨nm, syms, rfl, by simp⟩)) hok
-  all_goals simp [SerM.fail] at hok
+  have hAt : (viaUnion S node .unitVariant (serUnitVariantAt ext variant) s).1 = .ok () →
+      ∃ v bytes, viaUnion S node .unitVariant (serUnitVariantAt ext variant) s =
+          (.ok (), { s with out := s.out ++ bytes }) ∧
+        Dec S node bytes v ∧
+        denotesAtLeaf (denExtOf ext) S node (.unitVariant name idx variant) v = true := by
+    intro hok
+    refine viaUnion_leaf hS hn _ _ _ s h ?_ hok
+    intro n s h hu hnok hok
+    cases n <;> simp only [serUnitVariantAt] at hok ⊢
+    case null =>
+      have hv := ite_fail_ok hok
+      rw [if_pos hv]
+      exact ⟨.null, [], by simp [pure], Dec.of_encode (by simp [encode]), by simp [denotesLeaf, hv]⟩
+    case string => exact serStrAt_text s h hnok _ variant rfl hlen (Or.inl rfl) hok
+    case bytes => exact serStrAt_text s h hnok _ variant rfl hlen (Or.inr (Or.inl rfl)) hok
+    case enum nm syms =>
+      exact serStrAt_text s h hnok _ variant rfl hlen (Or.inr (Or.inr ⟨nm, syms, rfl, by simp⟩)) hok
+    all_goals simp [SerM.fail] at hok
+  by_cases hu : node.isUnion = false
+  · have e : serUnitVariant ext S node variant =
+        viaUnion S node .unitVariant (serUnitVariantAt ext variant) := by
+      cases node <;> first | rfl | simp [Node.isUnion] at hu
+    rw [e] at hok ⊢
+    exact hAt hok
+  · obtain ⟨vs, rfl⟩ : ∃ vs, node = .union vs := by
+      cases node <;> simp [Node.isUnion] at hu; exact ⟨_, rfl⟩
+    cases hd : nullVariantBranch S vs variant with
+    | none =>
+      have e : serUnitVariant ext S (.union vs) variant =
+          viaUnion S (.union vs) .unitVariant (serUnitVariantAt ext variant) := by
+        simp only [serUnitVariant, hd]
+      rw [e] at hok ⊢
+      exact hAt hok
+    | some d =>
+      have e : serUnitVariant ext S (.union vs) variant = writeVarI64 (d : Int) := by
+        simp only [serUnitVariant, hd]
+      rw [e]
+      obtain ⟨hv, k, hk, hSk⟩ := nullVariantBranch_some hd
+      have hdl : d < vs.length := by
+        rcases Nat.lt_or_ge d vs.length with h' | h'
+        · exact h'
+        · simp [List.getElem?_eq_none h'] at hk
+      have hsmall : vs.length < 2 ^ 63 := by simpa [nodeSmall] using hn.small
+      refine ⟨.union d .null, encodeLong d ++ [], ?_,
+        Dec.union hk hSk (by omega) (Dec.of_encode (by simp [encode])), ?_⟩
+      · rw [writeVarI64_spec _ (inI64_of_lt (by omega)) s h]; simp
+      · simp [denotesAtLeaf, unionBranch, hk, hSk, denotesLeaf, hv]
 
 theorem serF64_sound (hext : ExtOK ext) (bits : BitVec 64) (hok : (serF64 ext S node bits s).1 = .ok ()) :
     ∃ v bytes, serF64 ext S node bits s = (.ok (), { s with out := s.out ++ bytes }) ∧
